@@ -65,12 +65,60 @@ def basis(n: int, recipe: dict) -> torch.Tensor:
 
 def make_matrix(n: int, recipe: dict, dtype: torch.dtype) -> tuple[torch.Tensor, torch.Tensor, torch.Tensor]:
     """Returns (A in dtype, eigenvalues used, eigenbasis used). A is exactly symmetric."""
+    if recipe.get("struct") and n >= 2:
+        return make_structured(n, recipe, dtype)
     lam = spectrum(n, recipe)
     V = basis(n, recipe)
     A = (V * lam) @ V.T
     A = ((A + A.T) / 2).to(dtype)
     A = (A + A.T) / 2 if dtype == D else torch.triu(A) + torch.triu(A, 1).T  # exact symmetry after the cast
     return A, lam, V
+
+
+def make_structured(n: int, recipe: dict, dtype: torch.dtype) -> tuple[torch.Tensor, torch.Tensor, torch.Tensor]:
+    """Symmetric matrices with *exact* structural zeros (not spectral constructions): a zero diagonal entry whose row is weakly coupled (slightly
+    indefinite), arrowhead, banded and block-sparse patterns.  Returns (A, eigenvalues of A in float64, eigenvectors)."""
+    g = torch.Generator().manual_seed(recipe.get("seed", 0) + 11)
+    scale = recipe.get("scale", 1.0)
+    kind = recipe["struct"]
+    d = 10.0 ** (-recipe.get("logk", 2.0) * torch.rand(n, generator=g, dtype=D))
+    d[0] = 1.0
+    A = torch.diag(d)
+    delta = recipe.get("coupling", 1e-2)
+    if kind == "zero_diag_coupled":
+        i = int(torch.randint(0, n, (1,), generator=g))
+        A[i, i] = 0.0
+        row = delta * torch.randn(n, generator=g, dtype=D)
+        row[i] = 0.0
+        A[i, :] = row
+        A[:, i] = row
+    elif kind == "arrow":
+        row = delta * torch.randn(n, generator=g, dtype=D)
+        row[0] = A[0, 0]
+        A[0, :] = row
+        A[:, 0] = row
+    elif kind == "banded":
+        off = delta * torch.randn(n - 1, generator=g, dtype=D)
+        A = A + torch.diag(off, 1) + torch.diag(off, -1)
+    elif kind == "skip_band":
+        # neighbours never couple, second neighbours do
+        if n >= 3:
+            off = delta * torch.randn(n - 2, generator=g, dtype=D)
+            A = A + torch.diag(off, 2) + torch.diag(off, -2)
+    elif kind == "block_sparse":
+        k = max(1, n // 2)
+        B = torch.randn(k, 2, generator=g, dtype=D)
+        A = torch.zeros(n, n, dtype=D)
+        A[:k, :k] = B @ B.T
+    if recipe.get("psd"):
+        # diagonally dominant => positive semi-definite (properties that quantify over PSD input only)
+        offsum = (A - torch.diag(torch.diagonal(A))).abs().sum(dim=1)
+        A = A + torch.diag(torch.clamp(offsum - torch.diagonal(A), min=0.0))
+    A = (A * scale)
+    A = ((A + A.T) / 2).to(dtype)
+    A = torch.triu(A) + torch.triu(A, 1).T
+    L, V = torch.linalg.eigh(A.to(D))
+    return A, L, V
 
 
 def st_recipe(max_logk: float = 8.0, allow_neg: bool = False, allow_zero: bool = True):
@@ -88,6 +136,11 @@ def st_recipe(max_logk: float = 8.0, allow_neg: bool = False, allow_zero: bool =
         }
         if allow_neg:
             r["neg"] = draw(st.sampled_from([0.0, 0.0, 1e-7, 1e-5, 1e-3]))
+        if draw(st.integers(0, 5)) == 0:
+            kinds = ["arrow", "banded", "skip_band", "block_sparse"] + (["zero_diag_coupled", "zero_diag_coupled"] if allow_neg else [])
+            r["struct"] = draw(st.sampled_from(kinds))
+            r["coupling"] = draw(st.sampled_from([1e-2, 3e-2, 1e-3, 1e-4]))
+            r["psd"] = not allow_neg
         return r
 
     return rec()
